@@ -9,6 +9,7 @@ import (
 	"encoding/json"
 	"fmt"
 	"math"
+	"math/big"
 	"math/rand"
 	"os"
 	"sort"
@@ -38,13 +39,19 @@ type jcell struct {
 	V   string `json:"v,omitempty"`   // int64: decimal; float64: IEEE bits, decimal; bool: true/false; text, blob: hex
 	Str string `json:"str,omitempty"` // hex: Literal.String() / Time.Format(RFC3339Nano)
 	Cmp string `json:"cmp,omitempty"` // hex: Literal.ToComparableString()
-	Ns  string `json:"ns,omitempty"`  // time: UnixNano, decimal
+	Ns  string `json:"ns,omitempty"`  // time: nanoseconds since the epoch as an unbounded integer (Unix()*1e9 + Nanosecond(); NOT UnixNano, which wraps outside 1677..2262)
 	Off int    `json:"off,omitempty"` // time: zone offset in seconds
 }
 
 type jrow map[string]jcell
 
 func hx(s string) string { return hex.EncodeToString([]byte(s)) }
+
+// instantNs: the instant as nanoseconds since the epoch, exact for every year time.Time can hold
+func instantNs(t time.Time) string {
+	n := new(big.Int).Mul(big.NewInt(t.Unix()), big.NewInt(1000000000))
+	return n.Add(n, big.NewInt(int64(t.Nanosecond()))).String()
+}
 
 func renderCell(c *table.Cell) jcell {
 	switch {
@@ -60,7 +67,7 @@ func renderCell(c *table.Cell) jcell {
 		return renderLit(c.L)
 	case c.T != nil:
 		_, off := c.T.Zone()
-		return jcell{K: "t", Ns: strconv.FormatInt(c.T.UnixNano(), 10), Off: off, Str: hx(c.T.Format(time.RFC3339Nano))}
+		return jcell{K: "t", Ns: instantNs(*c.T), Off: off, Str: hx(c.T.Format(time.RFC3339Nano))}
 	}
 	return jcell{K: "null"}
 }
@@ -157,6 +164,8 @@ var (
 		"2020-01-01T00:00:00Z", "2020-01-01T00:00:01Z", "2019-12-31T23:30:00Z", "2021-06-15T12:00:00Z",
 		"1999-12-31T23:59:59Z", "2020-01-01T00:00:00.5Z", "2020-01-01T00:00:00.25Z", "2020-01-01T00:00:00.000000001Z",
 		"2020-01-01T00:00:00+01:00", "2020-01-01T02:00:00+02:00", "2019-12-31T19:00:00-05:00", "2020-01-01T00:00:01.5+01:00",
+		// far outside 1677-09-21 .. 2262-04-11, where UnixNano wraps
+		"1500-06-01T12:00:00Z", "9999-12-31T23:59:59Z", "0001-01-01T00:00:00Z", "2262-04-12T00:00:00Z", "1677-09-20T00:00:00Z", "3000-01-01T00:00:00+01:00",
 	}
 	instantsD12 = []string{
 		"2020-01-01T00:00:00Z", "2020-01-01T00:00:01Z", "2019-12-31T23:30:00Z", "2021-06-15T12:00:00Z",
